@@ -22,8 +22,10 @@ CONSTANTS Depth,      \* nesting depth of function arguments
           Small       \* TRUE: a reduced lexicon (quick tier)
 
 N(k, tok, args) == [k |-> k, tok |-> tok, args |-> args]
-Headers == IF Small THEN {N("hdr", "#\"b c\"", <<>>), N("hdr", "#a.asbool", <<>>)}
-           ELSE {N("hdr", "#a", <<>>), N("hdr", "#\"b c\"", <<>>), N("hdr", "#0", <<>>), N("hdr", "#a.asbool", <<>>)}
+\* a quoted header name may contain blanks and dots (the dots are part of the name, not qualifiers)
+Headers == IF Small THEN {N("hdr", "#\"b c\"", <<>>), N("hdr", "#a.asbool", <<>>), N("hdr", "#\"v.2\"", <<>>)}
+           ELSE {N("hdr", "#a", <<>>), N("hdr", "#\"b c\"", <<>>), N("hdr", "#0", <<>>), N("hdr", "#a.asbool", <<>>),
+                 N("hdr", "#\"v.2\"", <<>>), N("hdr", "#\"b c.d\"", <<>>)}
 Vars == IF Small THEN {N("var", "@v.k", <<>>)}
         ELSE {N("var", "@v", <<>>), N("var", "@v.k", <<>>), N("var", "@w.onchange.nocontrib", <<>>)}
 Terms == IF Small THEN {N("term", "\"s t\"", <<>>), N("term", "-2", <<>>), N("term", "/a.b/", <<>>)}
